@@ -29,6 +29,10 @@ Oracles (only what the statement claims):
    (``BlattWeisskopfSquared.evaluate`` switches from the Hankel-function form to a cached
    polynomial that is only equal for z >= 0) is reported under its own kind
    ``does_not_commute_symbolic_angular_momentum``.
+   Two *sibling* arguments that differ in one place only (``Kallen(e, e', x)``) must unfold as
+   well, to the same structure as ``Kallen(e.doit(), e'.doit(), x)`` where decidable (finding
+   F14c: SymPy orders the terms through ``_hashable_content()``, which has to order a class name
+   against a function).
 2. ``e == e'`` and ``hash(e) == hash(e')`` iff class, sympy arguments and non-sympy attributes
    are equal, over pairs that are identical or differ in exactly one of those.
 3. every node whose class has only sympy fields: ``node.func(*node.args) == node``.
@@ -139,6 +143,11 @@ def fixed_cases(tier):
         # witnesses of F14 (dataclasses.astuple recursion in subs/xreplace)
         {**base, "expr": edw},
         {**base, "expr": edw, "mode": "subs"},
+        # two widths that differ in the phase-space factor only (a class, a function) below one Kallen: unfolding
+        # used to raise TypeError ('>' between str and function) when SymPy ordered the product of the two
+        {**base, "expr": ["cls", "Kallen", [edw, [*edw[:3], {"phsp_factor": "chew_mandelstam_s_wave", "name": "N"}], ["sym", "x"]], {}]},
+        {**base, "expr": edw, "pair": {"op": "attr", "i": 0, "j": 1}},
+        {**base, "expr": edw, "pair": {"op": "attr", "i": 0, "j": 3}},
         # xreplace with an attribute value as key: alone / beside an absent symbol (selfkey 1 above) / a present one
         {**base, "expr": edw, "selfkey": 0},
         {**base, "expr": edw, "selfkey": 2},
@@ -288,10 +297,17 @@ def _close(a, b, slack=None):
         except ValueError:
             return False, 0, float("inf"), f"{a.shape} vs {b.shape}"
     fin = np.isfinite(a) & np.isfinite(b)
-    same_nonfinite = bool(np.all(np.isfinite(a) == np.isfinite(b)))
+    judged = np.ones(a.shape, dtype=bool)  # elements whose allowance is infinite (pure rounding noise) are not judged
+    if slack is not None:
+        try:
+            judged = np.isfinite(np.broadcast_to(slack, a.shape))
+        except ValueError:
+            pass
+    same_nonfinite = bool(np.all((np.isfinite(a) == np.isfinite(b)) | ~judged))
     if not fin.any():
         return same_nonfinite, 0, 0.0, str(a.shape)
-    scale = np.maximum(1.0, np.maximum(np.abs(a), np.abs(b)))
+    with np.errstate(all="ignore"):
+        scale = np.maximum(1.0, np.maximum(np.abs(a), np.abs(b)))
     allowed = TOL * scale
     if slack is not None:
         try:
@@ -820,6 +836,52 @@ def check_pair(e, tree, desc, labels, nontrivial):
     return None
 
 
+SIBLING_MAX_NODES = 400
+
+
+def check_siblings(e, d, tree, desc, labels, nontrivial):
+    """Law 1 for *two* nested arguments that differ in one place only: ``Kallen(e, e', x)`` (a library class
+    whose unfolding multiplies and adds its arguments) must unfold, and to the same value as
+    ``Kallen(e.doit(), e'.doit(), x)``.  SymPy orders the terms of the products and sums that appear on the
+    way with ``Basic.compare``, which walks through ``_hashable_content()`` -- the place where two instances
+    that differ only in a non-SymPy attribute have to be told apart *and ordered*."""
+    rec = G.recipes().get(tree[1])
+    if rec is None or rec.source == "custom" or rec.returns not in {"scalar", "cscalar"} or "Kallen" not in G.discover():
+        return None
+    variant, differs, what, _ = make_variant(tree, desc["pair"])
+    if differs is None:
+        return None
+    try:
+        e2 = G.build(variant, under_test)
+    except UnderTestError:
+        return None
+    if G.digest(e2) == G.digest(e):
+        return None
+    if G.count_nodes(d, SIBLING_MAX_NODES) >= SIBLING_MAX_NODES:
+        return None
+    labels.append(f"siblings:{differs}")
+    x = ["sym", "nohit"]
+    folded = under_test("Kallen(e, e', x)", G.build, ["cls", "Kallen", [tree, variant, x], {}])
+    try:
+        lhs = _ut("Kallen(e, e', x).doit", folded.doit)
+        d2 = _ut("doit", e2.doit)
+    except _SkipCase:
+        return None
+    kallen = G.discover()["Kallen"]
+    rhs = under_test("Kallen(e.doit(), e'.doit(), x).doit", lambda: kallen(d, d2, G.build(x)).doit())
+    if G.digest(lhs) == G.digest(rhs) or lhs == rhs:
+        return None
+    # Equal up to SymPy's automatic collection of terms (e and e' may unfold to the same expression): the
+    # value is a heavily cancelling polynomial, so a numerical comparison would only measure rounding. What
+    # this clause asserts is that both routes *can be taken* (no exception) and agree when they are
+    # structurally comparable; the value itself is law 1's business (check_commute) on each argument.
+    left = sorted({type(n).__name__ for n in G.library_nodes(lhs) if _foldable(type(n))})
+    if left:
+        return violation("doit_incomplete", nontrivial, labels, folded_classes_left=left, where="Kallen(e, e', x)")
+    labels.append("siblings:structure_differs_not_judged")
+    return None
+
+
 def check_rebuild(e, labels, nontrivial):
     n_checked = 0
     for node in G.library_nodes(e):
@@ -1016,13 +1078,14 @@ def run_case(desc) -> Result:
         lambda: check_expression_key(e, tree, desc, labels, nontrivial),
         lambda: check_attribute_key(e, tree, desc, labels, nontrivial),
         lambda: check_pair(e, tree, desc, labels, nontrivial),
+        lambda: check_siblings(e, d, tree, desc, labels, nontrivial),
         lambda: check_rebuild(e, labels, nontrivial),
         lambda: check_codegen(e, d, tree, labels, nontrivial),
     ]
     if G.count_nodes(d, MAX_NODES_UNFOLDED) >= MAX_NODES_UNFOLDED:
         # the size estimate of the generator was too optimistic: keep the cheap laws only
         labels.append("unfolded_form_too_large:commute_and_codegen_skipped")
-        checks = checks[1:5]
+        checks = checks[1:4] + checks[5:6]
     for check in checks:
         try:
             res = check()
